@@ -81,10 +81,21 @@ func applyEdits(src []byte, eds []textEdit) []byte {
 
 // helperInfo describes a new function that can be expanded.
 type helperInfo struct {
-	decl *ast.FuncDecl
-	file *ast.File
-	obj  *types.Func
-	why  string // non-empty: cannot be expanded
+	decl  *ast.FuncDecl // nil for a function literal
+	lit   *ast.FuncLit  // an immediately invoked literal, or a local closure that is only ever called
+	ftype *ast.FuncType
+	body  *ast.BlockStmt
+	name  string
+	file  *ast.File
+	obj   *types.Func
+	why   string // non-empty: cannot be expanded
+}
+
+func (h *helperInfo) pos() token.Pos {
+	if h.decl != nil {
+		return h.decl.Pos()
+	}
+	return h.lit.Pos()
 }
 
 func inspectNoLits(n ast.Node, f func(ast.Node) bool) {
@@ -97,6 +108,12 @@ func inspectNoLits(n ast.Node, f func(ast.Node) bool) {
 }
 
 func analyseHelper(p *packages.Package, fd *ast.FuncDecl) string {
+	return analyseFuncBody(p, fd.Type, fd.Body, p.TypesInfo.Defs[fd.Name])
+}
+
+// analyseFuncBody: can a function with this signature and body be expanded at a call site?
+func analyseFuncBody(p *packages.Package, ftype *ast.FuncType, body *ast.BlockStmt, self types.Object) string {
+	fd := &ast.FuncDecl{Type: ftype, Body: body}
 	if fd.Type.TypeParams != nil && len(fd.Type.TypeParams.List) > 0 {
 		return "generic"
 	}
@@ -123,7 +140,6 @@ func analyseHelper(p *packages.Package, fd *ast.FuncDecl) string {
 			}
 		}
 	}
-	self := p.TypesInfo.Defs[fd.Name]
 	why := ""
 	hasDefer := false
 	for _, st := range fd.Body.List {
@@ -154,7 +170,7 @@ func analyseHelper(p *packages.Package, fd *ast.FuncDecl) string {
 			case *ast.SelectorExpr:
 				callee = p.TypesInfo.Uses[f.Sel]
 			}
-			if callee != nil && callee == self {
+			if callee != nil && self != nil && callee == self {
 				why = "directly recursive"
 			}
 		case *ast.BranchStmt:
@@ -197,9 +213,7 @@ func inlineOverlay(dir string, known map[string]bool) map[string][]byte {
 			}
 		}
 	}
-	if !anyNew {
-		return nil
-	}
+	_ = anyNew // function literals are candidates too: always look
 	for round := 0; round < inlineRounds; round++ {
 		cfg := &packages.Config{Mode: packages.LoadSyntax, Dir: repoDir, Env: loadEnv(), Overlay: overlay}
 		if tags := os.Getenv("VERIF_TAGS"); tags != "" {
@@ -232,7 +246,7 @@ func inlineOverlay(dir string, known map[string]bool) map[string][]byte {
 				if obj == nil {
 					continue
 				}
-				helpers[obj] = &helperInfo{decl: fd, file: f, obj: obj, why: analyseHelper(p, fd)}
+				helpers[obj] = &helperInfo{decl: fd, ftype: fd.Type, body: fd.Body, name: declName(fd), file: f, obj: obj, why: analyseHelper(p, fd)}
 				for _, target := range closureAlias {
 					if target == declName(fd) {
 						helpers[obj].why = "stands for a closure"
@@ -240,7 +254,90 @@ func inlineOverlay(dir string, known map[string]bool) map[string][]byte {
 				}
 			}
 		}
-		if len(helpers) == 0 {
+		// function literals that can be expanded where they are called: immediately invoked
+		// literals, and local closures `f := func(..){..}` of functions that have no anchored
+		// closure of their own, when f is only ever called (never passed, stored, deferred or
+		// started as a goroutine)
+		litHelpers := map[*ast.FuncLit]*helperInfo{}
+		closureVars := map[types.Object]*helperInfo{}
+		closureDefs := map[types.Object]*ast.AssignStmt{}
+		for _, f := range p.Syntax {
+			if isTestFile(p.Fset, f.Pos()) {
+				continue
+			}
+			for _, d := range f.Decls {
+				fd, ok := d.(*ast.FuncDecl)
+				if !ok || fd.Body == nil {
+					continue
+				}
+				// the literal that plays the role of the function's known closure stays a closure
+				var anchoredLit *ast.FuncLit
+				if known[declName(fd)] && knownPubClosures[declName(fd)] > 0 {
+					want := knownPubClosureKind[declName(fd)]
+					for _, lk := range funcLitKinds(fd.Body) {
+						if lk.kind == want && anchoredLit == nil {
+							anchoredLit = lk.lit
+						}
+					}
+				}
+				ast.Inspect(fd.Body, func(n ast.Node) bool {
+					switch x := n.(type) {
+					case *ast.GoStmt, *ast.DeferStmt:
+						return false
+					case *ast.FuncLit:
+						if x == anchoredLit {
+							return true // its inside may still contain new literals
+						}
+					case *ast.CallExpr:
+						if lit, ok := x.Fun.(*ast.FuncLit); ok && lit != anchoredLit {
+							litHelpers[lit] = &helperInfo{lit: lit, ftype: lit.Type, body: lit.Body, name: "func literal in " + declName(fd), file: f, why: analyseFuncBody(p, lit.Type, lit.Body, nil)}
+						}
+					case *ast.AssignStmt:
+						if x.Tok != token.DEFINE || len(x.Lhs) != 1 || len(x.Rhs) != 1 {
+							return true
+						}
+						lit, ok := x.Rhs[0].(*ast.FuncLit)
+						id, ok2 := x.Lhs[0].(*ast.Ident)
+						if !ok || !ok2 || id.Name == "_" || lit == anchoredLit {
+							return true
+						}
+						obj := p.TypesInfo.Defs[id]
+						if obj == nil {
+							return true
+						}
+						closureVars[obj] = &helperInfo{lit: lit, ftype: lit.Type, body: lit.Body, name: "closure " + id.Name + " of " + declName(fd), file: f, why: analyseFuncBody(p, lit.Type, lit.Body, nil)}
+						closureDefs[obj] = x
+					}
+					return true
+				})
+			}
+		}
+		// a closure variable qualifies only if every use of it is the function of a call that is
+		// a statement on its own (not in go/defer, not nested, not assigned again)
+		if len(closureVars) > 0 {
+			callFun := map[*ast.Ident]bool{}
+			for _, f := range p.Syntax {
+				ast.Inspect(f, func(n ast.Node) bool {
+					switch x := n.(type) {
+					case *ast.GoStmt:
+						return false
+					case *ast.DeferStmt:
+						return false
+					case *ast.CallExpr:
+						if id, ok := x.Fun.(*ast.Ident); ok {
+							callFun[id] = true
+						}
+					}
+					return true
+				})
+			}
+			for id, obj := range p.TypesInfo.Uses {
+				if h := closureVars[obj]; h != nil && !callFun[id] {
+					h.why = "the closure value is used other than by calling it"
+				}
+			}
+		}
+		if len(helpers) == 0 && len(litHelpers) == 0 && len(closureVars) == 0 {
 			break
 		}
 		if round == 0 {
@@ -299,9 +396,18 @@ func inlineOverlay(dir string, known map[string]bool) map[string][]byte {
 		}
 		calleeOf := func(c *ast.CallExpr) (*helperInfo, ast.Expr) {
 			switch f := c.Fun.(type) {
+			case *ast.FuncLit:
+				if h := litHelpers[f]; h != nil && h.why == "" {
+					return h, nil
+				}
 			case *ast.Ident:
 				if fn, ok := p.TypesInfo.Uses[f].(*types.Func); ok {
 					if h := helpers[fn]; h != nil && h.why == "" {
+						return h, nil
+					}
+				}
+				if v, ok := p.TypesInfo.Uses[f].(*types.Var); ok {
+					if h := closureVars[v]; h != nil && h.why == "" {
 						return h, nil
 					}
 				}
@@ -343,15 +449,15 @@ func inlineOverlay(dir string, known map[string]bool) map[string][]byte {
 					if h == nil || handled[stmt] {
 						return
 					}
-					if h.decl == caller {
+					if h.decl != nil && h.decl == caller {
 						return
 					}
-					if h.decl.Recv != nil && recv == nil {
+					if h.decl != nil && h.decl.Recv != nil && recv == nil {
 						return
 					}
 					// receiver must be addressable-compatible: pointer receiver called on a value is
 					// only expanded when the static type of the receiver expression is already a pointer
-					if h.decl.Recv != nil {
+					if h.decl != nil && h.decl.Recv != nil {
 						rt := p.TypesInfo.TypeOf(recv)
 						_, recvIsPtr := rt.(*types.Pointer)
 						_, wantPtr := h.decl.Recv.List[0].Type.(*ast.StarExpr)
@@ -370,7 +476,7 @@ func inlineOverlay(dir string, known map[string]bool) map[string][]byte {
 						}
 						return "return " + vals
 					}
-					htf := p.Fset.File(h.decl.Pos())
+					htf := p.Fset.File(h.pos())
 					hsrc := srcOf(htf.Name())
 					if hsrc == nil {
 						return
@@ -381,8 +487,8 @@ func inlineOverlay(dir string, known map[string]bool) map[string][]byte {
 					type resv struct{ name, typ string }
 					var results []resv
 					namedRes := false
-					if h.decl.Type.Results != nil {
-						for _, fl := range h.decl.Type.Results.List {
+					if h.ftype.Results != nil {
+						for _, fl := range h.ftype.Results.List {
 							t := htext(fl.Type.Pos(), fl.Type.End())
 							if len(fl.Names) == 0 {
 								results = append(results, resv{"", t})
@@ -407,7 +513,7 @@ func inlineOverlay(dir string, known map[string]bool) map[string][]byte {
 					// bind receiver and arguments
 					type bind struct{ name, typ, expr string }
 					var binds []bind
-					if h.decl.Recv != nil {
+					if h.decl != nil && h.decl.Recv != nil {
 						rf := h.decl.Recv.List[0]
 						if len(rf.Names) == 1 && rf.Names[0].Name != "_" {
 							binds = append(binds, bind{rf.Names[0].Name, htext(rf.Type.Pos(), rf.Type.End()), text(recv.Pos(), recv.End())})
@@ -416,8 +522,8 @@ func inlineOverlay(dir string, known map[string]bool) map[string][]byte {
 						}
 					}
 					ai := 0
-					if h.decl.Type.Params != nil {
-						for _, fl := range h.decl.Type.Params.List {
+					if h.ftype.Params != nil {
+						for _, fl := range h.ftype.Params.List {
 							for _, n := range fl.Names {
 								if ai >= len(call.Args) {
 									return
@@ -458,7 +564,7 @@ func inlineOverlay(dir string, known map[string]bool) map[string][]byte {
 					}
 					// body with returns and defers rewritten
 					var defers []*ast.DeferStmt
-					for _, st := range h.decl.Body.List {
+					for _, st := range h.body.List {
 						if ds, ok := st.(*ast.DeferStmt); ok {
 							defers = append(defers, ds)
 						}
@@ -476,10 +582,10 @@ func inlineOverlay(dir string, known map[string]bool) map[string][]byte {
 						return strings.Join(out, "; ") + "; "
 					}
 					var beds []textEdit
-					bodyStart := htf.Offset(h.decl.Body.Lbrace) + 1
-					bodyEnd := htf.Offset(h.decl.Body.Rbrace)
+					bodyStart := htf.Offset(h.body.Lbrace) + 1
+					bodyEnd := htf.Offset(h.body.Rbrace)
 					bad := false
-					inspectNoLits(h.decl.Body, func(n ast.Node) bool {
+					inspectNoLits(h.body, func(n ast.Node) bool {
 						switch x := n.(type) {
 						case *ast.DeferStmt:
 							beds = append(beds, textEdit{htf.Offset(x.Pos()) - bodyStart, htf.Offset(x.End()) - bodyStart, "{}"})
@@ -521,13 +627,13 @@ func inlineOverlay(dir string, known map[string]bool) map[string][]byte {
 						return
 					}
 					body := string(applyEdits(hsrc[bodyStart:bodyEnd], beds))
-					hline := p.Fset.PositionFor(h.decl.Body.Lbrace, true)
+					hline := p.Fset.PositionFor(h.body.Lbrace, true)
 					if tail {
 						fmt.Fprintf(&b, "\n//line %s:%d\n{ %s%s\n}; }\n", hline.Filename, hline.Line, pre.String(), body)
 					} else {
 						fmt.Fprintf(&b, "\n//line %s:%d\n%s: for { %s%s\n", hline.Filename, hline.Line, id, pre.String(), body)
 						// falling off the end (no results): run every defer
-						b.WriteString(deferText(h.decl.Body.Rbrace))
+						b.WriteString(deferText(h.body.Rbrace))
 						fmt.Fprintf(&b, "break %s }; }\n", id)
 					}
 					// the statement itself
@@ -568,7 +674,7 @@ func inlineOverlay(dir string, known map[string]bool) map[string][]byte {
 					edits[fname] = append(edits[fname], ed...)
 					handled[stmt] = true
 					nEd++
-					info.Expanded = append(info.Expanded, fmt.Sprintf("%s into %s (%s:%d)", declName(h.decl), declName(caller), relName(fileOf(stmt.Pos())), startLine))
+					info.Expanded = append(info.Expanded, fmt.Sprintf("%s into %s (%s:%d)", h.name, declName(caller), relName(fileOf(stmt.Pos())), startLine))
 				}
 				visit = func(n ast.Node) bool {
 					switch x := n.(type) {
@@ -598,7 +704,7 @@ func inlineOverlay(dir string, known map[string]bool) map[string][]byte {
 									tmpl += ", "
 								}
 								if c, ok := r.(*ast.CallExpr); ok && call == nil {
-									if h, _ := calleeOf(c); h != nil && h.decl.Type.Results != nil && h.decl.Type.Results.NumFields() == 1 {
+									if h, _ := calleeOf(c); h != nil && h.ftype.Results != nil && h.ftype.Results.NumFields() == 1 {
 										call = c
 										tmpl += "\x00"
 										continue
@@ -636,6 +742,23 @@ func inlineOverlay(dir string, known map[string]bool) map[string][]byte {
 		}
 		if nEd == 0 {
 			break
+		}
+		// a local closure whose calls were expanded may be left without a use: keep its
+		// definition well-formed (`f := func(..){..}; _ = f`, on the same line)
+		for obj, def := range closureDefs {
+			h := closureVars[obj]
+			if h == nil || h.why != "" {
+				continue
+			}
+			tf := p.Fset.File(def.Pos())
+			already := false
+			if b := srcOf(tf.Name()); b != nil {
+				rest := string(b[tf.Offset(def.End()):])
+				already = strings.HasPrefix(rest, "; _ = "+obj.Name()+" /*inl*/")
+			}
+			if !already {
+				edits[tf.Name()] = append(edits[tf.Name()], textEdit{tf.Offset(def.End()), tf.Offset(def.End()), "; _ = " + obj.Name() + " /*inl*/"})
+			}
 		}
 		for fn, eds := range edits {
 			// nested candidates of one round overlap: keep the outermost, the next round sees the rest
@@ -771,3 +894,53 @@ func countFuncLits(n ast.Node) int {
 // on the closure are applied to that function, and calls of it count as calls
 // of the closure.
 var closureAlias = map[string]string{}
+
+
+type litKind struct {
+	lit  *ast.FuncLit
+	kind string // iife | go | defer | assign | return | other
+}
+
+// funcLitKinds lists the function literals inside n (outermost first, in source order) with
+// the syntactic role each plays.
+func funcLitKinds(n ast.Node) []litKind {
+	var out []litKind
+	var stack []ast.Node
+	ast.Inspect(n, func(m ast.Node) bool {
+		if m == nil {
+			stack = stack[:len(stack)-1]
+			return true
+		}
+		if lit, ok := m.(*ast.FuncLit); ok {
+			kind := "other"
+			if len(stack) > 0 {
+				switch par := stack[len(stack)-1].(type) {
+				case *ast.CallExpr:
+					if par.Fun == ast.Expr(lit) {
+						kind = "iife"
+						if len(stack) > 1 {
+							switch stack[len(stack)-2].(type) {
+							case *ast.GoStmt:
+								kind = "go"
+							case *ast.DeferStmt:
+								kind = "defer"
+							}
+						}
+					} else {
+						kind = "arg"
+					}
+				case *ast.AssignStmt:
+					kind = "assign"
+				case *ast.ValueSpec:
+					kind = "assign"
+				case *ast.ReturnStmt:
+					kind = "return"
+				}
+			}
+			out = append(out, litKind{lit, kind})
+		}
+		stack = append(stack, m)
+		return true
+	})
+	return out
+}
